@@ -511,12 +511,16 @@ func (p *sshFxpOpenPacket) respond(svr *Server) responsePacket {
 	mode := os.FileMode(0o644)
 	// Like OpenSSH, we only handle permissions here, and only when the file is being created.
 	// Otherwise, the permissions are ignored.
-	if p.Flags&sshFileXferAttrPermissions != 0 {
+	// The attribute block is decoded whenever flags are present: a block shorter than its flags declare
+	// makes the request malformed, and a malformed request must not open, create or truncate anything.
+	if p.Flags != 0 {
 		fs, err := p.unmarshalFileStat(p.Flags)
 		if err != nil {
 			return statusFromError(p.ID, err)
 		}
-		mode = fs.FileMode() & os.ModePerm
+		if p.Flags&sshFileXferAttrPermissions != 0 {
+			mode = fs.FileMode() & os.ModePerm
+		}
 	}
 
 	f, err := svr.openfile(svr.toLocalPath(p.Path), osFlags, mode)
